@@ -1,13 +1,15 @@
 #!/bin/sh
-# usage: tools/try_mutation.sh <patch.diff> <prop> [<prop>...]   -- applies the patch to /repo, runs the quick checks, reverts
+# usage: tools/try_mutation.sh <patch.diff> <prop> [<prop>...]
+# Applies the patch to a SCRATCH worktree of /repo (never to /repo itself), runs the quick checks against it (VERIF_REPO) with the
+# evidence redirected (VERIF_EVIDENCE_DIR), prints the VIOLATION lines, removes the worktree.
 patch=$1; shift
-cd /repo || exit 2
-git diff --quiet || { echo "/repo has local changes"; exit 2; }
-git apply "$patch" || { echo "PATCH DOES NOT APPLY"; exit 3; }
+wt=/tmp/mutrepo_$$
+git -C /repo worktree add -q --detach $wt HEAD || exit 2
+( cd $wt && git apply "$patch" ) || { echo "PATCH DOES NOT APPLY"; git -C /repo worktree remove --force $wt; exit 3; }
 cd /verif
 for p in "$@"; do
-  out=$(VERIF_SEED=${VERIF_SEED:-1} ./check $p --tier quick 2>&1)
+  out=$(VERIF_REPO=$wt VERIF_EVIDENCE_DIR=/verif/.work/mut_evidence VERIF_SEED=${VERIF_SEED:-1} ./check $p --tier quick 2>&1)
   echo "$out" | grep -E "^VIOLATION|^KNOWN" | head -3 | cut -c1-200
   echo "$out" | tail -1
 done
-git -C /repo checkout -- .
+git -C /repo worktree remove --force $wt
